@@ -118,6 +118,22 @@ class FixEffects:
             return ent[1]
         return None
 
+    def _is_method(self, fi, name):
+        """`self.name(...)` inside fi: is `name` a method somewhere in the rule hierarchy (then it is an ordinary call)?"""
+        rc = self.p.classes.get("vsg.rule:Rule")
+        if fi.cls is not None:
+            if fi.cls.find_method(name) is not None:
+                return True
+            for sc in fi.cls.all_subclasses():
+                if name in sc.methods:
+                    return True
+            return False
+        if rc is not None:
+            for ci in [rc] + rc.all_subclasses():
+                if name in ci.methods:
+                    return True
+        return False
+
     def effects_of(self, provider):
         """All effects reachable from `provider` (a FuncInfo). Cached."""
         if provider.key in self._cache:
@@ -139,6 +155,12 @@ class FixEffects:
                     tc = self.token_class(fi, n, locs)
                     if tc is not None:
                         out.append(Effect("CONSTRUCT", tc.key, fi, n, path, extra=tc))
+                    # construction through a rule attribute holding a token class: self.insert_token(value)
+                    if isinstance(n.func, ast.Attribute) and isinstance(n.func.value, ast.Name) and n.func.value.id == "self" and not self._is_method(fi, n.func.attr):
+                        out.append(Effect("CONSTRUCT-ATTR", n.func.attr, fi, n, path, extra=n.args[0] if n.args else None))
+                    # duplication of existing tokens
+                    if norm(n.func) in ("copy.deepcopy", "copy.copy", "deepcopy") and n.args:
+                        out.append(Effect("COPY", norm(n.args[0])[:40], fi, n, path))
                     if isinstance(n.func, ast.Attribute) and n.func.attr == "set_value" and n.args:
                         ent = self.p.resolve_expr(fi.module, n.func, local_names=locs)
                         if ent is not None and ent[0] == "func" and ent[1].cls is None:
